@@ -528,7 +528,11 @@ func runC09(c *Ctx) {
 				d.write = append(d.write, r.gave...)
 			} else {
 				ar := &c09AsyncReader{d: d, data: src}
-
+				if w.Chance(1, 5) {
+					ar.err = errors.New("async read error")
+					ar.withData = w.Chance(1, 2)
+				}
+				op = "AsyncReadFrom"
 				calls := 0
 				var gotN int
 				var gotErr error
